@@ -190,7 +190,7 @@ def plan_C07(b, tier, seed):
         return [A_poly(b, "f17", "domain", 0, 16), A_poly(b, "f97", "domain", 0, 16), A_poly(b, "f13", "domain", 0, 12), A_poly(b, "f37", "domain", 0, 12),
                 A_poly(b, "f257", "domain", 0, 32, 8), A_poly(b, "f101", "domain", 0, 25),
                 B_polybig(b, "bls12_381_fr", seed, 70, 12), B_polybig(b, "bn384_fq", seed, 50, 10), B_polybig(b, "secp256k1_fr", seed, 40, 8), B_polybig(b, "fp128_fq", seed, 40, 11)]
-    return [A_poly(b, c, "domain", 0, n, 8) for (c, n) in [("f17", 16), ("f97", 96), ("f13", 12), ("f37", 36), ("f257", 128), ("f101", 100),
+    return [A_poly(b, c, "domain", 0, n, 8) for (c, n) in [("f17", 16), ("f97", 48), ("f13", 12), ("f37", 36), ("f257", 64), ("f101", 50),
                                                             ("f193", 64), ("f577", 64), ("f12289", 64), ("f18433", 48), ("f40961", 40)]] + \
            [B_polybig(b, c, seed + k, 250, 13, timeout=3000) for c in ("bls12_381_fr", "bn384_fq", "mnt4_753_fr", "secp256k1_fr", "fp128_fq") for k in range(2)]
 
